@@ -127,8 +127,14 @@ def layers_of(d):
     return [(l._left, l._box, l._right) for l in d.layers.boxes]
 
 
+def ty_key(t):
+    """a type as the list of its wires, each a (name, winding number) pair: compared without the library's own `==`"""
+    return [(repr(getattr(o, 'name', o)), getattr(o, 'z', 0)) for o in t]
+
+
 def wf_reason(d):
-    """None if the diagram satisfies the representation invariant of C01, else why not"""
+    """None if the diagram satisfies the representation invariant of C01, else why not.  Types are compared both with the
+    library's `==` and wire by wire (name and winding number), so that a too generous `==` cannot hide a mismatch."""
     try:
         boxes, offsets = d.boxes, d.offsets
         if not (len(boxes) == len(offsets) == len(d.layers.boxes)):
@@ -139,13 +145,14 @@ def wf_reason(d):
         for k, (box, off) in enumerate(zip(boxes, offsets)):
             if not isinstance(off, int) or not (0 <= off and off + len(box.dom) <= len(scan)):
                 return 'offset %r of box %d out of range for width %d' % (off, k, len(scan))
-            if scan[off:off + len(box.dom)] != box.dom:
+            if scan[off:off + len(box.dom)] != box.dom or ty_key(scan[off:off + len(box.dom)]) != ty_key(box.dom):
                 return 'box %d does not find its domain at offset %d' % (k, off)
             left, b, right = d.layers.boxes[k]
-            if (left, right) != (scan[:off], scan[off + len(box.dom):]) or b != box:
+            if (left, right) != (scan[:off], scan[off + len(box.dom):]) or b != box \
+                    or ty_key(left) != ty_key(scan[:off]) or ty_key(right) != ty_key(scan[off + len(box.dom):]):
                 return 'layer %d disagrees with the scan' % k
             scan = scan[:off] @ box.cod @ scan[off + len(box.dom):]
-        if scan != d.cod:
+        if scan != d.cod or ty_key(scan) != ty_key(d.cod):
             return 'scan ends at %r, not at cod %r' % (scan, d.cod)
     except Exception as e:   # a value that cannot even be read is not well formed
         return 'exception while scanning: %r' % (e,)
